@@ -85,3 +85,13 @@ From RV Require Import Proofs.C06Strands.
 Theorem C06_strands_concat : forall fg rs, concat (map snd (strands fg rs)) = letters (numbering fg rs).
 Proof. exact strands_concat. Qed.
 Print Assumptions C06_strands_concat.
+
+(* the per-strand text (Mapping2D3D.dot_bracket): for every dot-bracket string as long as the numbering - which C01 proves of
+   every encoder - the strand records carry the strands' names and sequences, each structure piece is as long as its
+   sequence and the pieces concatenate to exactly that dot-bracket string *)
+Theorem C06_strand_texts : forall fg rs db, length db = length (letters (numbering fg rs)) ->
+    map (fun x => (fst (fst x), snd (fst x))) (strand_texts fg rs db) = strands fg rs /\
+    concat (map snd (strand_texts fg rs db)) = db /\
+    Forall (fun x => length (snd x) = length (snd (fst x))) (strand_texts fg rs db).
+Proof. exact strand_texts_spec. Qed.
+Print Assumptions C06_strand_texts.
